@@ -36,7 +36,7 @@ def oracle(H):
     return oracles.c02(H)
 
 
-SWEEP = (8, 120)
+SWEEP = (4, 120)
 install(globals(), ID, 3000, 40000)
 _sim_run = run
 _sim_replay = replay
